@@ -465,7 +465,7 @@ var c04Inspectors = []c04Inspector{
 }
 
 func runC04(seed int64, n int, tier string, outDir string) (*Report, error) {
-	rep := &Report{Rule: "every decoding entry point (package-level UnmarshalJSON / GobDecode and every UnmarshalJSON / UnmarshalText / UnmarshalBinary / GobDecode method of the 26 exported value types, found by reflection) x a malformed stream (empty and 1-byte inputs, truncations, byte flips, type confusions, duplicated chunks, junk insertion, random bytes, 100000-deep nesting, huge numbers, invalid UTF-8, lone surrogates, foreign gob shapes) derived from the mock documents and from encoded random values; per call: recover, wall time against input length, and every follow-up operation on a returned value; Coq: the parser model's outcome class on every JSON input; non-trivial = input is not accepted by encoding/json; distinct by (entry point, input)"}
+	rep := &Report{Rule: "every decoding entry point (package-level UnmarshalJSON / GobDecode and every UnmarshalJSON / UnmarshalText / UnmarshalBinary / GobDecode method of the 26 exported value types, found by reflection) x a malformed stream (empty and 1-byte inputs, truncations, byte flips, type confusions, duplicated chunks, junk insertion, random bytes, 100000-deep nesting, huge numbers, invalid UTF-8, lone surrogates, foreign gob shapes) derived from the mock documents and from encoded random values; per call: recover, wall time against input length, and every follow-up operation on a returned value; Coq: the parser model's outcome class on every JSON input; the leaf readers xsd.Unmarshal / JSONGetDuration and time.Time.UnmarshalText / JSONGetTime against their models on every text of up to four symbols over - P T 1 . S D H M Y, edited durations and edited instants (harness/c04xsd.go); non-trivial = input is not accepted by encoding/json; distinct by (entry point, input)"}
 	g := NewGen(seed, "C04")
 	entries := c04Entries()
 	inputs := c04Inputs(g, n)
@@ -614,6 +614,22 @@ func runC04(seed int64, n int, tier string, outDir string) (*Report, error) {
 		return nil, err
 	}
 	if err := rep.AddCases(cwG); err != nil {
+		return nil, err
+	}
+	// the leaf readers (xsd.Unmarshal / JSONGetDuration, time.Time.UnmarshalText / JSONGetTime) against their models on
+	// all byte strings (harness/c04xsd.go)
+	cwX, err := c04XsdCases(NewGen(seed, "C04xsd"), tier, outDir, rep)
+	if err != nil {
+		return nil, err
+	}
+	if err := rep.AddCases(cwX); err != nil {
+		return nil, err
+	}
+	cwTm, err := c04TimeCases(NewGen(seed, "C04time"), tier, outDir, rep)
+	if err != nil {
+		return nil, err
+	}
+	if err := rep.AddCases(cwTm); err != nil {
 		return nil, err
 	}
 	return rep, nil
